@@ -633,3 +633,73 @@ Proof.
     + split; [discriminate|]. intros _. cbn [map]. repeat split.
       intros _ R. apply (guard_sound b rest (reachable0_EInv _ R)). cbn. exact F.
 Qed.
+
+(* ------------------------------------------------------------------------------------------ *)
+(* ec_write and the buffer's name (fix 268c549): a write to a pipe changes nothing; a buffer without a name has nothing on disk *)
+Theorem pipe_write_neutral f b en : ec_write_named WPipe b en f = (f, false).
+Proof. reflexivity. Qed.
+
+Definition NInv (f : nbuf) : Prop := EInv (nb f) /\ (nname f = None -> disk (nb f) = []).
+
+Lemma nrun_op_inv f o : NInv f -> NInv (nrun_op f o).
+Proof.
+  intros [I Dk]. destruct o as [buf b e| | | |c|t b e]; cbn [nrun_op].
+  - split; cbn [nb nname]; [apply run_dop_inv, I | exact Dk].
+  - split; cbn [nb nname]; [apply run_dop_inv, I | exact Dk].
+  - split; cbn [nb nname]; [apply run_dop_inv, I|]. intro N. cbn [run_dop]. destruct (lbuf_undo (lb (nb f))); cbn [disk]; auto.
+  - split; cbn [nb nname]; [apply run_dop_inv, I|]. intro N. cbn [run_dop]. destruct (lbuf_redo (lb (nb f))); cbn [disk]; auto.
+  - destruct (nname f) as [q|] eqn:N.
+    + split; cbn [nb nname]; [apply run_dop_inv, I | discriminate].
+    + split; [exact I | intros _; apply Dk; reflexivity].
+  - destruct t as [|p|]; cbn [ec_write_named].
+    + destruct (nname f) as [q|] eqn:N; cbn [fst].
+      * split; cbn [nb nname]; [apply write_own_inv, I | discriminate].
+      * split; [exact I | intros _; apply Dk; reflexivity].
+    + destruct (nname f) as [q|] eqn:N.
+      * destruct (Nat.eqb p q); cbn [fst].
+        -- split; cbn [nb nname]; [apply write_own_inv, I | discriminate].
+        -- split; [exact I | rewrite N; discriminate].
+      * cbn [fst]. split; cbn [nb nname]; [apply write_own_inv, I | discriminate].
+    + cbn [fst]. split; [exact I | exact Dk].
+Qed.
+
+Lemma nrun_inv ops : forall f, NInv f -> NInv (nrun f ops).
+Proof. induction ops as [|o ops IH]; intros f H; [exact H|]. cbn [nrun]. apply IH, nrun_op_inv, H. Qed.
+
+Lemma nbuf_new_inv : NInv nbuf_new.
+Proof. split; [apply new_inv | reflexivity]. Qed.
+Lemma nbuf_open_inv c p : NInv (nbuf_open c p).
+Proof. split; [apply open_inv | discriminate]. Qed.
+
+Definition nstart (f : nbuf) : Prop := f = nbuf_new \/ exists c p, f = nbuf_open c p.
+Lemma nstart_inv f : nstart f -> NInv f.
+Proof. intros [->|(c & p & ->)]; [apply nbuf_new_inv | apply nbuf_open_inv]. Qed.
+
+(* over ALL histories (from either start): clean => text = ghost disk; and a pipe write leaves the name, the text, the log,
+   the undo position, the ghost disk and the flag as they are *)
+Theorem named_history_sound f0 ops : nstart f0 -> let f := nrun f0 ops in
+  (dirty_flag (nb f) = false -> ln (lb (nb f)) = disk (nb f)) /\
+  (nname f = None -> disk (nb f) = []) /\
+  forall b en, let f' := nrun_op f (NWrite WPipe b en) in
+    nname f' = nname f /\ content (nb f') = content (nb f) /\ dirty_flag (nb f') = dirty_flag (nb f) /\ disk (nb f') = disk (nb f).
+Proof.
+  intro S. cbv zeta. destruct (nrun_inv ops f0 (nstart_inv _ S)) as [(g0 & D) Dk].
+  split; [intro M; apply (clean_sound _ g0); assumption|]. split; [exact Dk|]. intros b en. cbn. repeat split.
+Qed.
+
+(* the repaired behaviour: after ANY history, a buffer that still has no name and holds some text is reported modified -- before and
+   after a write of it to a pipe --, :q over any table holding it is refused and so is the guard of :e / :b *)
+Theorem unnamed_pipe_quit ops b en pre post : let f := nrun nbuf_new ops in
+  nname f = None -> ln (lb (nb f)) <> [] ->
+  let f' := nrun_op f (NWrite WPipe b en) in
+  nname f' = None /\ ln (lb (nb f')) = ln (lb (nb f)) /\ dirty_flag (nb f') = true /\
+  snd (ec_quit false (pre ++ nb f' :: post)) = false /\ snd (guard_current false (nb f' :: post)) = true.
+Proof.
+  cbv zeta. intros N T. destruct (nrun_inv ops _ nbuf_new_inv) as [(g0 & D) Dk].
+  assert (F : dirty_flag (nb (nrun nbuf_new ops)) = true).
+  { destruct (dirty_flag (nb (nrun nbuf_new ops))) eqn:M; [reflexivity|]. exfalso. apply T.
+    rewrite (clean_sound _ g0 _ D M). apply Dk, N. }
+  cbn [nrun_op ec_write_named fst]. split; [exact N|]. split; [reflexivity|]. split; [exact F|]. split.
+  - apply (quit_refuses (pre ++ nb (nrun nbuf_new ops) :: post) (nb (nrun nbuf_new ops))); [apply in_elt | exact F].
+  - apply guard_refuses, F.
+Qed.
